@@ -2,7 +2,7 @@
 
 1. TLC model-checks the handshake machine (payload only after the continuation request, never after a
    refusal, a refusal is local to its command, every run ends usable).
-2. ClientLitGen enumerates configuration (LITERAL-, LITERAL+, IMAP4rev2, UTF8=ACCEPT enabled) x command
+2. ClientLitGen enumerates configuration (LITERAL-, LITERAL+, IMAP4rev2, UTF8=ACCEPT advertised / enabled) x command
    (LOGIN, SEARCH BODY, CREATE, RENAME, LIST, STATUS, APPEND) x argument class (plain, SP, quotes, CR/LF/NUL,
    8-bit, empty, 4097 octets, long with CR/LF, long 8-bit; APPEND sizes 10/4096/4097) x server reaction to a
    synchronising literal (continuation request after a grace period / tagged refusal).  A real client is
